@@ -393,6 +393,10 @@ func genC06(o *out, r *Rng) {
 	} {
 		o.e2eBoth(s, Opts{Sw: defSw, Expect: "reject"})
 	}
+	// several pieces in ONE argument: the last inline piece wins, the earlier ones are still hoisted (boundary B21; model and implementation agree)
+	for _, s := range []string{"script S { msgbox(\"a\" x \"b\") applymovement(\"c\" moves(up)) }", "script S { a(\"p\" \"q\", ascii\"r\" braille\"r\") b(moves(up) \"z\") }"} {
+		o.e2eBoth(s, Opts{Sw: defSw})
+	}
 	// sharing is by (content, type): a typed string and a plain string whose content spells type + content (or any other
 	// concatenation of the two) are different texts with their own labels
 	for _, ty := range []string{"ascii", "braille", "custom"} {
